@@ -31,3 +31,32 @@ package mount
 //@   arith bv
 //@   assigns nothing
 //@   ensures result == (m.Flags & 1 == 1)
+
+// Builder: a bind declared read-only carries MS_BIND|MS_RDONLY (which is what makes Mount.Mount and the
+// raw child sequence remount it read-only); every bind is nosuid; tmpfs is nosuid|nodev; proc is
+// nosuid|nodev|noexec and read-only unless asked otherwise. MS_RDONLY 1, MS_NOSUID 2, MS_NODEV 4,
+// MS_NOEXEC 8, MS_BIND 4096, MS_REMOUNT 32.
+//@ func pkg/mount.(*Builder).WithBind props C05
+//@   arith bv
+//@   requires b != nil
+//@   assigns b.Mounts
+//@   ensures result == b && len(b.Mounts) == len(old(b.Mounts)) + 1
+//@   ensures b.Mounts[len(b.Mounts) - 1].Source == source && b.Mounts[len(b.Mounts) - 1].Target == target
+//@   ensures b.Mounts[len(b.Mounts) - 1].Flags & 4096 == 4096 && b.Mounts[len(b.Mounts) - 1].Flags & 2 == 2 && b.Mounts[len(b.Mounts) - 1].Flags & 32 == 0
+//@   ensures readonly <==> b.Mounts[len(b.Mounts) - 1].Flags & 1 == 1
+
+//@ func pkg/mount.(*Builder).WithTmpfs props C05
+//@   arith bv
+//@   requires b != nil
+//@   assigns b.Mounts
+//@   ensures result == b && len(b.Mounts) == len(old(b.Mounts)) + 1
+//@   ensures b.Mounts[len(b.Mounts) - 1].Target == target && b.Mounts[len(b.Mounts) - 1].FsType == "tmpfs" && b.Mounts[len(b.Mounts) - 1].Data == data
+//@   ensures b.Mounts[len(b.Mounts) - 1].Flags & 6 == 6 && b.Mounts[len(b.Mounts) - 1].Flags & 4129 == 0
+
+//@ func pkg/mount.(*Builder).WithProcRW props C05
+//@   arith bv
+//@   requires b != nil
+//@   assigns b.Mounts
+//@   ensures result == b && len(b.Mounts) == len(old(b.Mounts)) + 1
+//@   ensures b.Mounts[len(b.Mounts) - 1].FsType == "proc" && b.Mounts[len(b.Mounts) - 1].Flags & 14 == 14
+//@   ensures !canWrite <==> b.Mounts[len(b.Mounts) - 1].Flags & 1 == 1
